@@ -14,7 +14,7 @@
 EXTENDS Integers, Sequences, FiniteSets, TLC, Json, IOUtils
 
 VARIABLE prog
-\* prog: [id, impls: Seq([tr, head, wcs: Seq([tr, ty])]), goals: Seq([tr, ty])]   (closed goals; the driver adds goals with unknowns)
+\* prog: [id, impls: Seq([tr, head, wcs: Seq([tr, ty])]), goals: Seq([tr, ty]) (closed goals), open: Seq(Seq([tr, ty])) (goals with the unknown T)]
 Inputs == ndJsonDeserialize(IOEnv.INPUTS)
 
 N(c) == [c |-> c, a |-> <<>>]
@@ -55,5 +55,12 @@ OrderIrrelevant ==
 \* a coherent program decides a closed goal through at most one impl
 OneImplApplies ==
   \A i \in DOMAIN prog.goals : Cardinality({ j \in DOMAIN prog.impls : prog.impls[j].tr = prog.goals[i].tr /\ Match(prog.impls[j].head, prog.goals[i].ty).ok }) <= 1
-Replay == PrintT(<<"REPLAY", ToJson([id |-> prog.id, truth |-> [i \in DOMAIN prog.goals |-> Holds(prog, prog.goals[i].tr, prog.goals[i].ty)]])>>)
+(* goals with one unknown: `exists<T> { c1, c2, .. }` with conjuncts [tr, ty] whose types are patterns over T.  The solutions among the
+   closed types of depth <= 3 (where-clauses never mention a larger type than the head, so membership is decided exactly) *)
+Closed0 == {N("Z"), N("Y")}
+Wrap(S) == S \cup {[c |-> k, a |-> <<t>>] : k \in {"S1", "S2"}, t \in S}
+Universe == Wrap(Wrap(Wrap(Closed0)))
+SolsOf(p, conj) == { t \in Universe : \A i \in DOMAIN conj : Holds(p, conj[i].tr, Subst(conj[i].ty, t)) }
+Replay == PrintT(<<"REPLAY", ToJson([id |-> prog.id, truth |-> [i \in DOMAIN prog.goals |-> Holds(prog, prog.goals[i].tr, prog.goals[i].ty)],
+                                     sols |-> [k \in DOMAIN prog.open |-> SolsOf(prog, prog.open[k])]])>>)
 =============================================================================
